@@ -4,7 +4,7 @@
   One Lean function per Go function, same guards, same order of evaluation; every slice expression and index
   goes through the fault-aware primitives of Basic/Bytes (a Go panic = `.error fault`).
 
-  This is the code after the fixes of /verif/fixes/index (01 … 07); the code before them is frozen in
+  This is the code after the fixes of /verif/fixes/index (01 … 09); the code before them is frozen in
   Model/IndexOrig.lean.
 
   Conventions
@@ -145,6 +145,7 @@ def parseHashPageSpecial (info : PageInfo) (special : Bytes) : M PageInfo :=
     let flags ← uN 2 special 12
     pure { info with prevBlock := prev, nextBlock := next, flags := flags, isMeta := flags &&& 8 != 0,
                      level := if flags &&& 2 != 0 then bucket else info.level,
+                     itemCount := if flags &&& 4 != 0 then 0 else info.itemCount,      -- fix 09: a bitmap page holds no items
                      flagStrings := info.flagStrings ++ flagStrings 2 flags }
 
 def parseGiSTPageSpecial (info : PageInfo) (special : Bytes) : M PageInfo :=
@@ -161,7 +162,9 @@ def parseGINPageSpecial (info : PageInfo) (special : Bytes) : M PageInfo :=
     let right ← uN 4 special 0
     let maxOff ← uN 2 special 4
     let flags ← uN 2 special 6
-    pure { info with rightLink := right, flags := flags, itemCount := (maxOff : Int), isLeaf := flags &&& 2 != 0,
+    -- fix 09: maxoff is the item count of posting-tree pages only (`info.Flags&(GINData|GINCompressed) != 0`)
+    pure { info with rightLink := right, flags := flags,
+                     itemCount := if flags &&& 129 != 0 then (maxOff : Int) else info.itemCount, isLeaf := flags &&& 2 != 0,
                      isMeta := flags &&& 8 != 0, isDeleted := flags &&& 4 != 0,
                      flagStrings := info.flagStrings ++ flagStrings 4 flags }
 
@@ -177,9 +180,14 @@ def parseBRINPageSpecial (info : PageInfo) (special : Bytes) : M PageInfo :=
   else do
     let flags ← uN 2 special 4
     let ty ← uN 2 special 6
-    pure { info with flags := flags, isMeta := ty == 0xF091 }
+    -- fix 09: a range-map page holds no items; fix 08: BRIN_EVACUATE_PAGE is named
+    pure { info with flags := flags, isMeta := ty == 0xF091, itemCount := if ty == 0xF092 then 0 else info.itemCount,
+                     flagStrings := info.flagStrings ++ flagStrings 6 flags }
 
 /-! ### parseIndexPage -/
+
+/-- fix 09, the end of parseIndexPage: `if info.IsMeta { info.ItemCount = 0 }` -/
+def metaHasNoItems (info : PageInfo) : PageInfo := if info.isMeta then { info with itemCount := 0 } else info
 
 def parseIndexPage (page : Bytes) (pageNum : Nat) (t : Nat) : M PageInfo :=
   let info0 : PageInfo := { pageNumber := pageNum, indexType := t, typeString := typeString t }
@@ -196,15 +204,16 @@ def parseIndexPage (page : Bytes) (pageNum : Nat) (t : Nat) : M PageInfo :=
                    itemCount := Int.tdiv ((lower : Int) - 24) 4 }
     if special < 8192 then do
       let specialData ← sliceFrom page special
-      match t with
-      | 1 => parseBTreePageSpecial info specialData
-      | 2 => parseHashPageSpecial info specialData
-      | 3 => parseGiSTPageSpecial info specialData
-      | 4 => parseGINPageSpecial info specialData
-      | 5 => parseSPGiSTPageSpecial info specialData
-      | 6 => parseBRINPageSpecial info specialData
-      | _ => pure info
-    else pure info
+      let info ← match t with
+        | 1 => parseBTreePageSpecial info specialData
+        | 2 => parseHashPageSpecial info specialData
+        | 3 => parseGiSTPageSpecial info specialData
+        | 4 => parseGINPageSpecial info specialData
+        | 5 => parseSPGiSTPageSpecial info specialData
+        | 6 => parseBRINPageSpecial info specialData
+        | _ => pure info
+      pure (metaHasNoItems info)
+    else pure (metaHasNoItems info)
 
 /-! ### metapages -/
 
